@@ -1584,6 +1584,18 @@ fn run_trace_inner(trace: &Trace, ctx: &mut Ctx, run_dir: &std::path::Path) -> R
                     alt_model = Some(*alt);
                 }
             }
+            // Observation perturbs: reading the whole state after every step would hide anything a backend defers until the next
+            // read (recomputation on demand, a dirty mark lost between two writes). One run in three therefore looks only now and
+            // then - always after the last step, and whenever the outcome has to be read off the state (Either).
+            let lazy_run = prop != "C16" && ctx.fault.is_none() && (trace.seed.wrapping_mul(0x9e37_79b9_7f4a_7c15) >> 61) % 3 == 0;
+            if lazy_run && alt_model.is_none() && si + 1 != trace.steps.len() && !matches!(step.op, Op::Reopen { .. }) {
+                let look = (trace.seed ^ (si as u64).wrapping_mul(0xd6e8_feb8_6659_fd93)).wrapping_mul(0x9e37_79b9_7f4a_7c15) >> 62 == 0;
+                if !look {
+                    ctx.counters.inc("steps_not_observed");
+                    ctx.log.add_u64(node.model.digest());
+                    continue;
+                }
+            }
             let mut ev = evaluate(node, step, ctx);
             if let (Ok(Some(_)), Some(alt)) = (&ev, alt_model.take()) {
                 let keep = std::mem::replace(&mut node.model, alt);
